@@ -88,7 +88,7 @@ func solveText(dir, name, text string, timeoutS int) QueryResult {
 }
 
 func writeLemmaReplay(prop string, l *LemmaResult) string {
-	dir := filepath.Join(verifDir, "out", "replay")
+	dir := filepath.Join(outDir(), "replay")
 	os.MkdirAll(dir, 0o755)
 	p := filepath.Join(dir, sanitize(l.Name)+".json")
 	data, _ := json.MarshalIndent(map[string]interface{}{
